@@ -54,8 +54,8 @@ theorem accepted_frame_is_bounded (fix : Bool) (limit : Int) (input body : List 
 /-- Any failed round trip (dial refused, accept-then-close, stall until the deadline, garbage, a length prefix that
 is negative / over the limit / longer than what follows) closes that peer connection only; that lookupd then holds
 nothing for this nsqd (it drops the closed connection's registrations). -/
-theorem garbage_is_contained (objs : List Ref) (apply : List Key → List Key) (p : Peer) :
-    command objs apply p .fail = { p with conn := .down, regs := [] } := by
+theorem garbage_is_contained (objs dead : List Ref) (apply : List Key → List Key) (p : Peer) :
+    command objs dead apply p .fail = { p with conn := .down, regs := [] } := by
   unfold command
   cases p.conn <;> rfl
 
@@ -94,20 +94,36 @@ theorem lookup_steps_leave_nsqd_alone (s s' : State) (st : Step)
 
 /-! ## reconnect -/
 
-/-- After a successful (re)connect — `Connect`, magic, `connectCallback`: IDENTIFY then REGISTER for everything in
-the maps — the lookupd's registrations for this nsqd are exactly nsqd's current topics and channels. -/
-theorem reconnect_resyncs (objs : List Ref) (hs : ChanHasTopic objs) (p : Peer) (hd : p.conn = .down) :
-    (command objs id p .ok).conn = .up ∧
-    ∀ k, k ∈ (command objs id p .ok).regs ↔ ∃ r ∈ objs, r.key = k := by
-  have hc : command objs id p .ok = { p with conn := .up, regs := callbackRegs objs } := by
+/-- After a successful (re)connect — `Connect`, magic, `connectCallback`: IDENTIFY then REGISTER for every topic and
+channel in the maps that is not being deleted — the lookupd's registrations for this nsqd are exactly the names that
+are live on nsqd (an object that is being deleted is in its map until the very end of the deletion; with
+fixes/F14_connect_callback_skips_exiting.patch it is not re-registered). -/
+theorem reconnect_resyncs (objs dead : List Ref) (p : Peer) (hd : p.conn = .down) :
+    (command objs dead id p .ok).conn = .up ∧
+    ∀ k, k ∈ (command objs dead id p .ok).regs ↔ NameLive objs dead k := by
+  have hc : command objs dead id p .ok = { p with conn := .up, regs := callbackRegs objs dead } := by
     unfold command; rw [hd]; rfl
   rw [hc]
-  exact ⟨rfl, fun k => mem_callbackRegs objs hs k⟩
+  exact ⟨rfl, fun k => mem_callbackRegs objs dead k⟩
+
+/-- when nothing is being deleted the live names are exactly the objects in the maps -/
+theorem nameLive_iff_in_maps (objs dead : List Ref) (hs : ChanHasTopic objs) (hq : ∀ r ∈ objs, r ∉ dead) (k : Key) :
+    NameLive objs dead k ↔ ∃ r ∈ objs, r.key = k := by
+  constructor
+  · rintro ⟨⟨T, hT, hTc, hTt, _⟩, hch⟩
+    rcases hch with h | ⟨r, hr, h1, h2, _⟩
+    · exact ⟨T, hT, Prod.ext hTt (by rw [h]; exact hTc)⟩
+    · exact ⟨r, hr, Prod.ext h1 h2⟩
+  · rintro ⟨r, hr, rfl⟩
+    by_cases hc : r.chan = ""
+    · exact ⟨⟨r, hr, hc, rfl, hq r hr⟩, Or.inl hc⟩
+    · obtain ⟨T, hT, h1, h2⟩ := hs r hr hc
+      exact ⟨⟨T, hT, h1, h2, hq T hT⟩, Or.inr ⟨r, hr, rfl, rfl, hq r hr⟩⟩
 
 /-- Two successful heartbeats always end connected: a connection whose lookupd went away fails the first PING
 (closing it) and the second one reconnects. -/
-theorem two_good_heartbeats_connect (o1 o2 : List Ref) (p : Peer) :
-    (command o2 id (command o1 id p .ok) .ok).conn = .up := by
+theorem two_good_heartbeats_connect (o1 d1 o2 d2 : List Ref) (p : Peer) :
+    (command o2 d2 id (command o1 d1 id p .ok) .ok).conn = .up := by
   unfold command
   cases p.conn <;> rfl
 
@@ -120,82 +136,117 @@ def Quiescent (s : State) : Prop := s.bag = [] ∧ ∀ r ∈ s.objs, r ∉ s.dea
 def InSync (s : State) : Prop :=
   ∀ p ∈ s.peers, p.conn = .up → ∀ k, k ∈ p.regs ↔ ∃ r ∈ s.objs, r.key = k
 
-/-- `converges`: along any schedule — any interleaving of churn, faults, restarts, reconfiguration — that is
-`Orderly` (the hypothesis NoStaleNotify, see `Proofs.LookupSync.Orderly`: no UNREGISTER of a deleted object after the
-REGISTER of a re-created one; no REGISTER of a channel after the UNREGISTER of its exiting topic; no reconnect while a
-deleted object whose UNREGISTER was already consumed is still in the map), once churn is over every lookupd that has
-a working connection (`two_good_heartbeats_connect`: two heartbeats after its last fault) is in sync. -/
-theorem converges (steps : List Step) (s : State) (hr : OrderlyRun State.init steps s) (hq : Quiescent s) :
-    InSync s := by
+/-- the convergence clause for a tree (`f14`, `f15`: which of the two lookup fixes it has): along EVERY schedule —
+any interleaving of churn, faults, restarts and reconfiguration, with the notifications consumed in ANY order — once
+churn is over every lookupd that has a working connection is in sync. -/
+def C16_converges_full (f14 f15 : Bool) : Prop :=
+  ∀ (steps : List Step) (s : State), runG f14 f15 State.init steps = some s → Quiescent s → InSync s
+
+theorem stepG_fixed (s : State) (st : Step) : stepG true true s st = step s st := by
+  cases st <;> simp [stepG, step]
+
+theorem runG_fixed (s : State) (steps : List Step) : runG true true s steps = run s steps := by
+  induction steps generalizing s with
+  | nil => rfl
+  | cons st rest ih => simp only [runG, run, stepG_fixed]; split <;> simp [ih]
+
+/-- `converges`: with fixes/F14_connect_callback_skips_exiting.patch and fixes/F15_lookup_notify_current_state.patch
+the clause holds with NO hypothesis on the schedule (the former `Orderly` / NoStaleNotify hypothesis is gone):
+whatever order the `Notify` goroutines are consumed in, whenever connections break and are re-established
+(`two_good_heartbeats_connect`: two heartbeats after the last fault), quiescent ⇒ in sync. -/
+theorem converges : C16_converges_full true true := by
+  intro steps s hr hq
+  rw [runG_fixed] at hr
   have hI := inv_run inv_init hr
   intro p hp hup k
   have ⟨e1, e2⟩ := hI.peers p hp hup
+  rw [← nameLive_iff_in_maps s.objs s.dead hI.chanTopic hq.2 k]
   constructor
   · intro hk
-    rcases e2 k hk with ⟨r, hl, hrk⟩ | ⟨r, hb, _⟩
-    · exact ⟨r, hl.1, hrk⟩
+    rcases e2 k hk with h | ⟨r, hb, _⟩ | ⟨_, ⟨r, hb, _⟩, _⟩
+    · exact h
     · rw [hq.1] at hb; simp at hb
-  · rintro ⟨r, hr', rfl⟩
-    exact e1 r ⟨⟨hr', hq.2 r hr'⟩, by rw [hq.1]; simp⟩
-
-/-- The same statement for *every* schedule (no order hypothesis on the notifications). -/
-def C16_converges_full : Prop :=
-  ∀ (steps : List Step) (s : State), run State.init steps = some s → Quiescent s → InSync s
+    · rw [hq.1] at hb; simp at hb
+  · intro hk
+    exact e1 k hk (by rintro ⟨r, hb, _⟩; rw [hq.1] at hb; simp at hb)
 
 def t0 : Ref := ⟨"t", "", 0⟩
 def t1 : Ref := ⟨"t", "", 1⟩
 def c1 : Ref := ⟨"t", "c", 1⟩
 
-/-- witness 1 (stale UNREGISTER): delete `t`, re-create `t`; the two notifications overtake each other. -/
+/-- witness 1 (stale UNREGISTER, needs F15): delete `t`, re-create `t`; the two notifications overtake each other. -/
 def staleUnregister : List Step :=
   [.addPeer 0 .ok, .createTopic "t", .notify t0 [.ok], .delBegin t0, .delUnlink t0, .createTopic "t",
    .notify t1 [.ok], .notify t0 [.ok]]
 
-/-- witness 2 (reconnect during a deletion): the connection breaks, the UNREGISTER of `t` is lost with it, the
-next heartbeat reconnects while `t` is still in the map (it is unlinked at the very end of the deletion). -/
+/-- witness 2 (reconnect during a deletion, needs F14): the connection breaks, the UNREGISTER of `t` is lost with
+it, the next heartbeat reconnects while `t` is still in the map (it is unlinked at the very end of the deletion). -/
 def reconnectDuringDelete : List Step :=
   [.addPeer 0 .ok, .createTopic "t", .notify t0 [.ok], .lookupdDrop 0, .delBegin t0, .notify t0 [.ok],
    .tick [.ok], .delUnlink t0]
 
-/-- witness 3 (child after parent): a channel's creation notification is consumed after the UNREGISTER of its
-exiting topic. -/
+/-- witness 3 (child after parent, needs F15): a channel's creation notification is consumed after the UNREGISTER
+of its exiting topic. -/
 def channelAfterTopic : List Step :=
   [.addPeer 0 .ok, .createTopic "t", .notify t0 [.ok], .createChan "t" "c", .delBegin t0, .notify t0 [.ok],
    .notify c1 [.ok], .delBegin c1, .notify c1 [.ok], .delUnlink c1, .delUnlink t0]
 
-/-- quiescent, peer connected, and its registrations differ from nsqd's maps as described -/
-def diverged (o : Option State) (objKeys regs : List Key) : Bool :=
+/-- quiescent, peer connected, nsqd's keys and the lookupd's registrations are as given -/
+def endsWith (o : Option State) (objKeys regs : List Key) : Bool :=
   match o with
   | some s => s.bag.isEmpty && s.objs.all (fun r => !s.dead.contains r) && s.objs.map Ref.key == objKeys &&
       (match s.peers with | [p] => p.conn == .up && p.regs == regs | _ => false)
   | none => false
 
-example : diverged (run State.init staleUnregister) [("t", "")] [] = true := by decide
-example : diverged (run State.init reconnectDuringDelete) [] [("t", "")] = true := by decide
-example : diverged (run State.init channelAfterTopic) [] [("t", "")] = true := by decide
+-- on the tree without the fixes the three schedules end quiescent and out of sync …
+example : endsWith (runG false false State.init staleUnregister) [("t", "")] [] = true := by decide
+example : endsWith (runG false false State.init reconnectDuringDelete) [] [("t", "")] = true := by decide
+example : endsWith (runG false false State.init channelAfterTopic) [] [("t", "")] = true := by decide
+-- … each fix alone is not enough …
+example : endsWith (runG false true State.init reconnectDuringDelete) [] [("t", "")] = true := by decide
+example : endsWith (runG true false State.init staleUnregister) [("t", "")] [] = true := by decide
+-- … and with both, the same schedules end in sync
+example : endsWith (runG true true State.init staleUnregister) [("t", "")] [("t", "")] = true := by decide
+example : endsWith (runG true true State.init reconnectDuringDelete) [] [] = true := by decide
+example : endsWith (runG true true State.init channelAfterTopic) [] [] = true := by decide
 
-/-- Without the order hypothesis the statement is false (witness 2; it is reproduced on the real code,
-see corpus/C16/known/). -/
-theorem converges_full_false : ¬ C16_converges_full := by
-  intro h
-  have hc : diverged (run State.init reconnectDuringDelete) [] [("t", "")] = true := by decide
-  cases hr : run State.init reconnectDuringDelete with
-  | none => simp [hr, diverged] at hc
+theorem not_in_sync_of_endsWith {o : Option State} {objKeys regs : List Key} (h : endsWith o objKeys regs = true)
+    (k : Key) (hk : (k ∈ regs) ≠ (k ∈ objKeys)) : ∃ s, o = some s ∧ Quiescent s ∧ ¬ InSync s := by
+  cases o with
+  | none => simp [endsWith] at h
   | some s =>
-    simp only [hr, diverged] at hc
+    simp only [endsWith] at h
     cases hps : s.peers with
-    | nil => simp [hps] at hc
+    | nil => simp [hps] at h
     | cons p ps =>
       cases ps with
-      | cons q qs => simp [hps] at hc
+      | cons q qs => simp [hps] at h
       | nil =>
-        simp only [hps, Bool.and_eq_true, List.isEmpty_iff, List.all_eq_true, beq_iff_eq] at hc
-        obtain ⟨⟨⟨hb, hd⟩, ho⟩, hup, hregs⟩ := hc
-        have hq : Quiescent s := ⟨hb, fun r hr' => by have := hd r hr'; simpa using this⟩
-        have := (h _ s hr hq p (by simp [hps]) hup ("t", "")).mp (by simp [hregs])
-        obtain ⟨r, hr', _⟩ := this
-        have hobjs : s.objs = [] := by simpa using ho
-        simp [hobjs] at hr'
+        simp only [hps, Bool.and_eq_true, List.isEmpty_iff, List.all_eq_true, beq_iff_eq] at h
+        obtain ⟨⟨⟨hb, hd⟩, ho⟩, hup, hregs⟩ := h
+        refine ⟨s, rfl, ⟨hb, fun r hr' => by have := hd r hr'; simpa using this⟩, ?_⟩
+        intro hsync
+        have := hsync p (by simp [hps]) hup k
+        apply hk
+        rw [hregs] at this
+        rw [← ho]
+        simp only [List.mem_map]
+        exact propext this
+
+/-- Without F14 the clause is false even with F15 (witness 2; reproduced on the real code without any forcing). -/
+theorem converges_false_without_F14 : ¬ C16_converges_full false true := by
+  intro h
+  have hc : endsWith (runG false true State.init reconnectDuringDelete) [] [("t", "")] = true := by decide
+  obtain ⟨s, hr, hq, hn⟩ := not_in_sync_of_endsWith hc ("t", "") (by simp)
+  exact hn (h _ s hr hq)
+
+/-- Without F15 the clause is false even with F14 (witness 1; reproduced on the real code with the
+`nsqd.notify.beforeSend` hook). -/
+theorem converges_false_without_F15 : ¬ C16_converges_full true false := by
+  intro h
+  have hc : endsWith (runG true false State.init staleUnregister) [("t", "")] [] = true := by decide
+  obtain ⟨s, hr, hq, hn⟩ := not_in_sync_of_endsWith hc ("t", "") (by simp)
+  exact hn (h _ s hr hq)
 
 /-! ## pre-creation -/
 
@@ -237,7 +288,7 @@ def goodSchedule : List Step :=
   [.addPeer 0 .ok, .createTopic "t", .notify t0 [.ok], .createChan "t" "c", .notify c1 [.fail], .tick [.ok],
    .lookupdDrop 0, .tick [.ok], .tick [.ok]]
 
-example : diverged (run State.init goodSchedule) [("t", ""), ("t", "c")] [("t", "c"), ("t", "")] = true := by decide
+example : endsWith (run State.init goodSchedule) [("t", ""), ("t", "c")] [("t", "c"), ("t", "")] = true := by decide
 
 example : readResponse true 1024 [0, 0, 0, 2, 79, 75] = .ok [79, 75] := by decide
 example : readResponse true 1 [0, 0, 0, 2, 79, 75] = .err := by decide
